@@ -18,7 +18,10 @@ for tag, rev in (("base", base), ("head", "HEAD")):
     trees[tag] = wt
 scripts = sorted(p[len(trees["head"]) + 1 :] for p in glob.glob(trees["head"] + "/examples/**/*.py", recursive=True))
 results = {}
+only = os.environ.get("EXDIFF_ONLY")
 for rel in scripts:
+    if only and only not in rel:
+        continue
     if os.path.basename(rel) in ("__init__.py", "parameters.py", "geometry.py", "tooth.py", "involute_gear.py", "region.py") or "/regions/" in rel:
         continue
     row = {}
@@ -96,6 +99,9 @@ for rel, row in results.items():
             if isinstance(db.get(sec), list) and isinstance(dh.get(sec), list):
                 n = f"[{len(db[sec])}->{len(dh[sec])}, {sum(1 for x, y in zip(db[sec], dh[sec]) if x != y)} entries differ]"
             diff.append(sec + n)
+            if only and isinstance(db.get(sec), list):
+                ex = [(x, y) for x, y in zip(db[sec], dh[sec]) if x != y][:1]
+                print("first difference in", sec, ":", ex)
             if sec == "edges" and isinstance(db[sec], list) and db[sec] and isinstance(db[sec][0], tuple):
                 ex = [(x, y) for x, y in zip(db[sec], dh[sec]) if x != y][:1]
                 if ex:
